@@ -181,6 +181,27 @@ func drawC19(t *rapid.T) any {
 		}
 		ni = 0
 	}
+	if ni > 0 && rapid.IntRange(0, 2).Draw(t, "customstate") == 0 {
+		// types unfolded by custom UnfoldStates (Expander types, the stateful
+		// user unfolder) in several positions, used by several goroutines at
+		// the same time: the library's adapters around user states are created
+		// per value and must stay per instance
+		base := gomodel.TypeDesc{Kind: "pool", Pool: rapid.SampledFrom([]string{"ExpPair", "ExpInt", "UState", "UProc"}).Draw(t, "cstype")}
+		shapes := []gomodel.TypeDesc{
+			{Kind: "slice", Elem: &base},
+			{Kind: "map", Elem: &base},
+			{Kind: "struct", Fields: []gomodel.FieldDesc{{Name: "A", Type: base}, {Name: "B", Type: gomodel.TypeDesc{Kind: "slice", Elem: &base}}, {Name: "N", Type: gomodel.TypeDesc{Kind: "string"}}}},
+		}
+		vcfg := gomodel.ValCfg{Budget: 25, ValidUTF8: true, Finite: true, NoBigUint: true}
+		for i := range shapes {
+			typ, err := gomodel.Build(&shapes[i])
+			if err != nil {
+				t.Fatalf("harness: %v", err)
+			}
+			c.Items = append(c.Items, GoCase{Type: shapes[i], Val: gomodel.DrawValue(t, typ, vcfg)})
+		}
+		ni = 0
+	}
 	for i := 0; i < ni; i++ {
 		g := drawGoCase(t, gomodel.TypeCfg{Tags: true, Pool: true, InlineOnlyStruct: true, Recursive: true}, gomodel.ValCfg{Budget: 25, ValidUTF8: true, Finite: true, NoBigUint: true})
 		typ, _, _ := g.build()
@@ -212,7 +233,7 @@ func drawC19(t *rapid.T) any {
 func init() {
 	register(&Property{
 		ID:            "C19",
-		Rule:          "programs of G goroutines (quick: 2..8, thorough: 2..16) released by a barrier, each running its own pipeline — Fold -> Unfold directly or through the json/ubjson/cborl encoder and parser, or encoder -> parser over a shared event stream — 1..3 times on its OWN instances (half of the goroutines keep one unfolder, created without target and recycled with Reset + SetTarget before every document) over SHARED input values and SHARED freshly generated reflect.StructOf types (first use under contention) plus pool types incl. the self-referential ones; half of the programs take a FRESH member of a family of 144 self-referential generic types and let the goroutines use R, *R, []R and struct{P *R; S []R} at the same time (first use of a recursive type under contention); the binary is built with -race (GORACE=halt_on_error): any race report, 'concurrent map' fatal error or crash is a violation; differential: every goroutine's outcome and value equal those of the same job run alone afterwards. Schedules are sampled by the Go scheduler (GOMAXPROCS 4, varied in the thorough tier), not enumerated. non-trivial = at least two goroutines share an item (type or stream) and route; distinct by case hash",
+		Rule:          "programs of G goroutines (quick: 2..8, thorough: 2..16) released by a barrier, each running its own pipeline — Fold -> Unfold directly or through the json/ubjson/cborl encoder and parser, or encoder -> parser over a shared event stream — 1..3 times on its OWN instances (half of the goroutines keep one unfolder, created without target and recycled with Reset + SetTarget before every document) over SHARED input values and SHARED freshly generated reflect.StructOf types (first use under contention) plus pool types incl. the self-referential ones; half of the programs take a FRESH member of a family of 144 self-referential generic types and let the goroutines use R, *R, []R and struct{P *R; S []R} at the same time (first use of a recursive type under contention); a third of the others use a type with a custom UnfoldState (Expander, stateful or processing user unfolder) as slice element, map value and struct field in all goroutines; the binary is built with -race (GORACE=halt_on_error): any race report, 'concurrent map' fatal error or crash is a violation; differential: every goroutine's outcome and value equal those of the same job run alone afterwards. Schedules are sampled by the Go scheduler (GOMAXPROCS 4, varied in the thorough tier), not enumerated. non-trivial = at least two goroutines share an item (type or stream) and route; distinct by case hash",
 		New:           func() any { return &C19Case{} },
 		Draw:          drawC19,
 		Check:         checkC19,
